@@ -1,4 +1,4 @@
-import MaestroVerif.Lemmas.ExpandInv
+import MaestroVerif.Lemmas.ExpandFlow
 import MaestroVerif.Props.C08
 
 /-!
@@ -25,23 +25,6 @@ inductive WsShape (spec : Spec) (known : Step → Prop) (i : Inst) : Prop
 
 def AllWs (spec : Spec) (known : Step → Prop) (g : XG) : Prop := ∀ i, i ∈ g.insts → WsShape spec known i
 
-theorem place_insts {ord : List Str → List Str} {s s' : SS} {inst : Inst} {isRoot : Bool}
-    {parents hubD : List Str} (h : place ord s inst isRoot parents hubD = .ok s') :
-    s'.g.insts = s.g.insts ∨ s'.g.insts = s.g.insts ++ [inst] := by
-  unfold place at h
-  split at h
-  · cases h
-  · rename_i g hw
-    simp only [Except.ok.injEq] at h
-    subst h
-    have := wire_insts _ _ _ _ _ _ _ hw
-    simp only [this]
-    unfold XG.addStep
-    simp only
-    split
-    · left; rfl
-    · right; rfl
-
 theorem place_ws {spec : Spec} {known : Step → Prop} {ord : List Str → List Str} {s s' : SS} {inst : Inst}
     {isRoot : Bool} {parents hubD : List Str} (h : place ord s inst isRoot parents hubD = .ok s')
     (hi : WsShape spec known inst) (hs : AllWs spec known s.g) : AllWs spec known s'.g := by
@@ -56,23 +39,6 @@ theorem place_ws {spec : Spec} {known : Step → Prop} {ord : List Str → List 
 /-- every recorded used-parameter set consists of parameter keys -/
 def UsedKeys (spec : Spec) (s : SS) : Prop :=
   ∀ d k, k ∈ getAssoc s.used d → k ∈ spec.params.map (·.key)
-
-theorem place_used {ord : List Str → List Str} {s s' : SS} {inst : Inst} {isRoot : Bool}
-    {parents hubD : List Str} (h : place ord s inst isRoot parents hubD = .ok s') : s'.used = s.used := by
-  unfold place at h
-  split at h
-  · cases h
-  · simp only [Except.ok.injEq] at h; subst h; rfl
-
-theorem stageRow_used {spec : Spec} (ord : List Str → List Str) (st : Step) (used : List Str) (s s' : SS)
-    (row : Nat) (h : stageRow spec ord st used s row = .ok s') : s'.used = s.used := by
-  unfold stageRow at h
-  simp only at h
-  split at h
-  · simp only [Except.ok.injEq] at h; subst h; rfl
-  · split at h
-    · cases h
-    · have := place_used h; exact this
 
 theorem stageRow_ws {spec : Spec} {known : Step → Prop} (ord : List Str → List Str)
     (st : Step) (hk : known st) (used : List Str) (hu : used.isEmpty = false)
@@ -89,21 +55,6 @@ theorem stageRow_ws {spec : Spec} {known : Step → Prop} (ord : List Str → Li
       refine WsShape.row st hk used row hu hsub hrow ?_ ?_
       · simp only [instName, hu]; rfl
       · cases spec.hashWs <;> simp
-
-theorem foldl_except_inv_mem {α : Type} (Q : SS → Prop) (f : Except Err SS → α → Except Err SS)
-    (l : List α)
-    (hf : ∀ a x s', x ∈ l → (∀ s, a = .ok s → Q s) → f a x = .ok s' → Q s') :
-    ∀ (m : List α), (∀ x, x ∈ m → x ∈ l) → ∀ (a : Except Err SS) (s' : SS),
-      (∀ s, a = .ok s → Q s) → m.foldl f a = .ok s' → Q s' := by
-  intro m
-  induction m with
-  | nil => intro _ a s' ha h; exact ha s' h
-  | cons x xs ih =>
-    intro hm a s' ha h
-    simp only [List.foldl_cons] at h
-    apply ih (fun y hy => hm y (by simp [hy])) (f a x) s' _ h
-    intro s hs
-    exact hf a x s (hm x (by simp)) ha hs
 
 theorem stageStep_ws {spec : Spec} {known : Step → Prop} (ord : List Str → List Str)
     (s s' : SS) (st : Step) (hk : known st) (h : stageStep spec ord s st = .ok s')
@@ -149,99 +100,6 @@ theorem stageStep_ws {spec : Spec} {known : Step → Prop} (ord : List Str → L
         simp only [Except.ok.injEq] at hs0
         subst hs0
         exact ⟨hs.1, hkeys⟩
-
-/-! ### the steps that are staged are steps of the specification -/
-
-def FlowSteps (steps : List Step) (f : Flow) : Prop := ∀ p, p ∈ f.steps → p.2 ∈ steps ∧ p.2.name = p.1
-
-theorem addEdge_steps {f f' : Flow} {a b : Str} (h : f.addEdge a b = .ok f') : f'.steps = f.steps := by
-  unfold Flow.addEdge at h
-  split at h
-  · cases h; rfl
-  · split at h
-    · cases h
-    · split at h
-      · cases h; rfl
-      · simp only at h
-        split at h
-        · cases h; rfl
-        · cases h
-        · cases h
-        · cases h
-
-theorem buildFlow_steps (steps : List Step) (f : Flow) (h : buildFlow steps = .ok f) : FlowSteps steps f := by
-  unfold buildFlow at h
-  suffices H : ∀ (l : List Step) (a : Except Err Flow) (f : Flow),
-      (∀ x, x ∈ l → x ∈ steps) → (∀ f0, a = .ok f0 → FlowSteps steps f0) →
-      l.foldl (fun acc st =>
-        match acc with
-        | .error e => .error e
-        | .ok f =>
-          let f := f.addNode st.name (some st)
-          if st.depends.isEmpty then f.addEdge SOURCE st.name
-          else st.depends.foldl (fun acc d =>
-            match acc with
-            | .error e => .error e
-            | .ok f => f.addEdge (if d.contains '*' then stripCombos d else d) st.name) (.ok f)) a = .ok f →
-      FlowSteps steps f by
-    refine H steps _ f (fun x hx => hx) ?_ h
-    intro f0 hf0
-    simp only [Except.ok.injEq] at hf0
-    subst hf0
-    intro p hp
-    simp [Flow.addNode] at hp
-  intro l
-  induction l with
-  | nil =>
-    intro a f _ ha h
-    exact ha f h
-  | cons st l ih =>
-    intro a f hl ha h
-    simp only [List.foldl_cons] at h
-    refine ih _ f (fun x hx => hl x (by simp [hx])) ?_ h
-    intro f1 hf1
-    cases a with
-    | error e => simp at hf1
-    | ok fa =>
-      have hfa := ha fa rfl
-      have hnode : FlowSteps steps (fa.addNode st.name (some st)) := by
-        unfold Flow.addNode
-        split
-        · exact hfa
-        · intro p hp
-          simp only [List.mem_append, List.mem_singleton] at hp
-          rcases hp with hp | hp
-          · exact hfa p hp
-          · subst hp; exact ⟨hl st (by simp), rfl⟩
-      simp only at hf1
-      split at hf1
-      · intro p hp
-        rw [addEdge_steps hf1] at hp
-        exact hnode p hp
-      · -- the fold over the dependencies keeps the steps
-        have : ∀ (ds : List Str) (acc : Except Err Flow) (f2 : Flow),
-            (∀ f0, acc = .ok f0 → FlowSteps steps f0) →
-            ds.foldl (fun acc d =>
-              match acc with
-              | .error e => .error e
-              | .ok f => f.addEdge (if d.contains '*' then stripCombos d else d) st.name) acc = .ok f2 →
-            FlowSteps steps f2 := by
-          intro ds
-          induction ds with
-          | nil => intro acc f2 hacc h2; exact hacc f2 h2
-          | cons d ds ihd =>
-            intro acc f2 hacc h2
-            simp only [List.foldl_cons] at h2
-            refine ihd _ f2 ?_ h2
-            intro f0 hf0
-            cases acc with
-            | error e => simp at hf0
-            | ok fb =>
-              simp only at hf0
-              intro p hp
-              rw [addEdge_steps hf0] at hp
-              exact hacc fb rfl p hp
-        exact this _ _ f1 (fun f0 hf0 => by simp only [Except.ok.injEq] at hf0; subst hf0; exact hnode) hf1
 
 /-- **the workspace of every instance of the finished graph is `make_safe_path(root, step)` or
 `make_safe_path(root, step, combination string | its hash)` of a step of the specification, and its
